@@ -269,3 +269,38 @@ package types
 //@   modifies bigv
 //@   ensures result.i != nil && fresh(result.i) && bigv[result.i] == fracPow(old(bigv[d.i]), old(bigv[power.i]), denominator)
 //@   ensures forall p int {bigv[p]} :: isold(p) ==> bigv[p] == old(bigv[p])
+
+//@ func (BigInt).IsNegative
+//@   props C41,C23
+//@   panics_unless i.i != nil
+//@   modifies nothing
+//@   ensures result == (bigv[i.i] < 0)
+
+//@ func (BigInt).IsPositive
+//@   props C41,C23
+//@   panics_unless i.i != nil
+//@   modifies nothing
+//@   ensures result == (bigv[i.i] > 0)
+
+// ---- addresses ---------------------------------------------------------------------
+//@ pure addrEq(a Bytes, b Bytes) bool = (len(a) == 0 && len(b) == 0) || a == b
+
+//@ func (Address).Equals
+//@   props C23,C14,C36
+//@   panics_never
+//@   modifies nothing
+//@   ensures result == addrEq(bytes(a), bytes(aa2))
+
+//@ func CompareStringMaps
+//@   trusted map comparison (generic; iteration over a Go map): equal as finite maps
+//@   pure_fn
+//@   ensures result == sameMap(ref(a), ref(b))
+//@ pure sameMap(a int, b int) bool
+//@ axiom [sameMap-refl] forall a int :: sameMap(a, a)
+
+//@ func NewCoin
+//@   trusted constructor (validates denom and amount, panics otherwise); result not constrained here
+//@   pure_fn
+//@ func NewCoins
+//@   trusted constructor (sorts, validates); result not constrained here
+//@   pure_fn
